@@ -264,3 +264,51 @@ func runC06PartCopy(c *Ctx) {
 		s.Close()
 	}
 }
+
+// runC06EmptyUploadID: multipart requests whose uploadId parameter is present but empty
+// address no upload: they are refused and, above all, do not touch the stored object
+// ("abort discards the upload without touching the object").
+func runC06EmptyUploadID(c *Ctx) {
+	r := c.R
+	for _, kind := range drv.AllKinds {
+		s := mustServer(drv.Opts{Kind: kind})
+		bucket := "mp-bucket"
+		if drv.IsSingle(kind) {
+			bucket = drv.SingleName
+		} else if cr := s.CreateBucket(bucket); cr.Status != 200 {
+			panic("harness: create bucket: " + cr.String())
+		}
+		for ci, op := range []struct {
+			name string
+			q    *drv.Req
+		}{
+			{"upload-part", &drv.Req{Method: "PUT", Query: "partNumber=1&uploadId=", Body: []byte("PART-BODY")}},
+			{"abort", &drv.Req{Method: "DELETE", Query: "uploadId="}},
+			{"list-parts", &drv.Req{Method: "GET", Query: "uploadId="}},
+			{"complete", &drv.Req{Method: "POST", Query: "uploadId=", Body: completeXML([]model.CompletePart{{N: 1, ETag: `"00000000000000000000000000000000"`}})}},
+			{"upload-part-second-parameter-empty", &drv.Req{Method: "PUT", Query: "uploadId=&partNumber=1&uploadId=7", Body: []byte("PART-BODY")}},
+		} {
+			r.Eval(1)
+			key := fmt.Sprintf("eid/obj-%d", ci)
+			orig := []byte("original object " + op.name)
+			if p := s.Put(bucket, key, orig, nil); p.Status != 200 {
+				panic("harness: put: " + p.String())
+			}
+			mpInitiate(s, bucket, key, nil) // a pending upload of the key exists, with a real id
+			op.q.Path = drv.ObjPath(bucket, key)
+			resp := s.Do(op.q)
+			r.Count("empty_upload_id_requests", 1)
+			r.Distinct(fmt.Sprintf("%s|empty-upload-id|%s|%d", kind, op.name, resp.Status))
+			g := s.Get(bucket, key)
+			if g.Status != 200 || !bytes.Equal(g.Body, orig) {
+				r.Violation(sig("C06", backendClass(kind), "object-changed", "empty-upload-id,"+op.name), fmt.Sprintf("%s: %s %s?%s was answered %s; GET of the key now gives %s (%d bytes), the object was %q", kind, op.q.Method, key, op.q.Query, resp, g, len(g.Body), orig),
+					map[string]interface{}{"backend": kind, "request": reqDesc(op.q), "response": respDesc(resp)})
+				continue
+			}
+			if resp.Status >= 200 && resp.Status < 300 && op.name != "list-parts" {
+				r.Violation(sig("C06", backendClass(kind), "finished-upload-usable", "empty-upload-id,"+op.name), fmt.Sprintf("%s: %s %s?%s (no such upload) was acknowledged with %s", kind, op.q.Method, key, op.q.Query, resp), nil)
+			}
+		}
+		s.Close()
+	}
+}
